@@ -1,6 +1,7 @@
 import GoSQLXModel.Model.LexGen
 import GoSQLXModel.Proofs.LexEOF
 import GoSQLXModel.Proofs.LexSpell2
+import GoSQLXModel.Proofs.LexSpell3
 /-!
 # C05 — Reported source positions point at the right characters
 
@@ -29,6 +30,12 @@ Together: locations are non-decreasing along the stream.
 
   Every comment's span is where the comment was written (`sepSpans`, `itemsCommentSpans`; a line comment's span
   includes the newline that ends it).
+
+* `unterminated_literal_located_at_its_quote` (`Proofs/LexSpell3.lean`) — a tokenizer error after a reference text is
+  located at the offending element: a text of the reference grammar followed by a single-quoted literal that never closes
+  is rejected with `E1002` at the byte offset of the literal's opening quote, whatever comments, blank lines and
+  multi-line literals precede it (`lexLoop_prefix_err`: the tokens read before change nothing and no other error comes
+  first).
 
 **Partial**: that a *parser* error is located at the offending token is decided dynamically (single-token corruptions
 through ParseFromModelTokensWithPositions); the Lean side covers the tokenizer.
@@ -88,6 +95,18 @@ theorem reference_grammar_spans (cls : CharClass) (hA : AsciiOK cls) (lead : Lis
   obtain ⟨toks, cs, h1, _, _, h4, h5⟩ := tokenize_spell2 cls genLexTables hA lead items hlead hok hsize hcount
   exact ⟨toks, cs, h1, h4, spans_slice items (sepBytes lead), h5⟩
 
+/-- **C05 (error location)**: after any reference text, an unterminated single-quoted literal (plain body) is reported as
+    `E1002` at its opening quote -/
+theorem unterminated_literal_located_at_its_quote (cls : CharClass) (hA : AsciiOK cls) (h39 : isIdentStart cls 39 = false)
+    (lead : List Piece) (items : List Item2) (body : Bytes)
+    (hlead : lead.all Piece.ok = true) (hb : plainBody body = true)
+    (hok : seqOKT cls genLexTables (39 :: body) items = true)
+    (hsize : (sepBytes lead ++ (flat2 items ++ 39 :: body)).length ≤ genLexTables.maxInput)
+    (hcount : items.length < genLexTables.maxTokens) :
+    tokenize cls genLexTables (sepBytes lead ++ (flat2 items ++ 39 :: body)) =
+      .err ⟨"E1002", .at (sepBytes lead ++ flat2 items).length⟩ :=
+  unterminated_literal_located cls genLexTables hA h39 lead items body hlead hb hok hsize hcount
+
 /-- non-vacuity: a leading comment, a blank line, a literal that spans two lines, then `x`: every token is located at
     its own first character (line 5, column 2 for `x`) -/
 def spanItems : List Item2 :=
@@ -99,6 +118,12 @@ example : (spans (sepBytes spanLead).length spanItems).map (fun se => (locOf (se
     locOf (sepBytes spanLead ++ flat2 spanItems) se.2)) = [((3, 1), (3, 7)), ((3, 8), (4, 3)), ((5, 2), (5, 3))] := by decide +kernel
 
 example : sepSpans 0 spanLead ++ itemsCommentSpans (sepBytes spanLead).length spanItems = [(0, 6)] := by decide +kernel
+
+/-- non-vacuity for the error location: the same text continued by `, 'oops` — rejected at line 5, column 6 -/
+example : seqOKT .ascii genLexTables (39 :: strBytes "oops") (spanItems.dropLast ++ [(.word (strBytes "x"), [.blanks [32]]), (.op [44], [.blanks [32]])]) = true ∧
+    plainBody (strBytes "oops") = true := by decide +kernel
+example : tokenize .ascii genLexTables (strBytes "-- hi\n\nselect 'a\nb'\n x , 'oops") = .err ⟨"E1002", .at 25⟩ ∧
+    locOf (strBytes "-- hi\n\nselect 'a\nb'\n x , 'oops") 25 = (5, 6) := by decide +kernel
 
 /-! non-vacuity: the token after a comment and a blank line is located at its own first character -/
 def sample : Bytes := strBytes "-- hi\n\n  SELECT 1"
